@@ -205,34 +205,49 @@ func build(n intent) tcell.Style {
 	return remember(st, n)
 }
 
-// StyleVariants returns a style with every component set and styles that differ from it in exactly one component
-// (foreground, background, one attribute, underline style, underline colour, URL, URL id), in random order:
-// drawn into adjacent cells they exercise every comparison a style cache makes.
-func StyleVariants(rng *rand.Rand) []tcell.Style {
-	base := intent{fg: tcell.PaletteColor(2), bg: tcell.PaletteColor(4), uc: tcell.PaletteColor(1), at: 1 | 8, us: 1, url: "x:y", id: "id=1"}
+// StyleVariants returns n styles for adjacent cells: the first has every component set, each next one differs from
+// its predecessor in exactly one component (foreground, background, one attribute, underline style, underline
+// colour, URL, URL id), chosen at random - every comparison a style cache makes is exercised by some pair.
+func StyleVariants(rng *rand.Rand, n int) []tcell.Style {
+	cur := intent{fg: tcell.PaletteColor(2), bg: tcell.PaletteColor(4), uc: tcell.PaletteColor(1), at: 1 | 8, us: 1, url: "x:y", id: "id=1"}
 	if rng.Intn(2) == 0 {
-		base.fg, base.uc = tcell.NewRGBColor(10, 200, 30), tcell.NewRGBColor(250, 0, 120)
+		cur.fg, cur.uc = tcell.NewRGBColor(10, 200, 30), tcell.NewRGBColor(250, 0, 120)
 	}
-	vs := []intent{base}
-	mod := func(f func(*intent)) {
-		n := base
-		f(&n)
-		vs = append(vs, n)
+	flip := func(a, b tcell.Color, c tcell.Color) tcell.Color {
+		if c == a {
+			return b
+		}
+		return a
 	}
-	mod(func(n *intent) { n.fg = tcell.PaletteColor(3) })
-	mod(func(n *intent) { n.bg = tcell.PaletteColor(5) })
-	mod(func(n *intent) { n.at |= 32 })
-	mod(func(n *intent) { n.at &^= 1 })
-	mod(func(n *intent) { n.us = 3 })
-	mod(func(n *intent) { n.uc = tcell.PaletteColor(6) })
-	mod(func(n *intent) { n.uc = tcell.ColorDefault })
-	mod(func(n *intent) { n.url = "x:z" })
-	mod(func(n *intent) { n.id = "id=2" })
-	mod(func(n *intent) { n.url, n.id = "", "" })
-	rng.Shuffle(len(vs), func(i, j int) { vs[i], vs[j] = vs[j], vs[i] })
-	out := make([]tcell.Style, len(vs))
-	for i, n := range vs {
-		out[i] = build(n)
+	out := []tcell.Style{build(cur)}
+	for len(out) < n {
+		switch rng.Intn(8) {
+		case 0:
+			cur.fg = flip(tcell.PaletteColor(2), tcell.PaletteColor(3), cur.fg)
+		case 1:
+			cur.bg = flip(tcell.PaletteColor(4), tcell.PaletteColor(5), cur.bg)
+		case 2:
+			cur.at ^= 32
+		case 3:
+			cur.at ^= 1
+		case 4:
+			cur.us = 4 - cur.us // solid <-> curly
+		case 5:
+			cur.uc = flip(tcell.PaletteColor(1), tcell.PaletteColor(6), cur.uc)
+		case 6:
+			if cur.url == "x:y" {
+				cur.url = "x:z"
+			} else {
+				cur.url = "x:y"
+			}
+		default:
+			if cur.id == "id=1" {
+				cur.id = "id=2"
+			} else {
+				cur.id = "id=1"
+			}
+		}
+		out = append(out, build(cur))
 	}
 	return out
 }
